@@ -263,7 +263,9 @@ fn referenced_definitions(text: &str) -> Vec<(usize, String, String)> {
 }
 
 fn apply_def_edit(text: &str, line: usize, name: &str, delete: bool) -> String {
-    let eol = if text.contains("\r\n") { "\r\n" } else { "\n" };
+    // same line numbering as str::lines() (used to locate the definition), whatever mix of line endings the
+    // document has: split at \n and keep a trailing \r as part of the line
+    let eol = "\n";
     let lines: Vec<&str> = text.split(eol).collect();
     let mut out: Vec<String> = vec![];
     let mut i = 0;
@@ -289,6 +291,22 @@ fn apply_def_edit(text: &str, line: usize, name: &str, delete: bool) -> String {
     out.join(eol)
 }
 
+thread_local! {
+    /// names that the built-in LIDER catalogue also defines (a project may lose its own definition of those)
+    static CATALOGUE_NAMES: std::collections::HashSet<String> = {
+        let mut s = std::collections::HashSet::new();
+        if let Ok(db) = ctehexml::load_lider_catalog() {
+            s.extend(db.materials.keys().cloned());
+            s.extend(db.wallcons.keys().cloned());
+            s.extend(db.wincons.keys().cloned());
+            s.extend(db.glasses.keys().cloned());
+            s.extend(db.frames.keys().cloned());
+        }
+        s
+    };
+    static LIVE_EXAMPLES: std::cell::RefCell<Vec<String>> = const { std::cell::RefCell::new(Vec::new()) };
+}
+
 fn check_edit(h: &CaseH, c: &EditCase) -> Verdict {
     let (path, text) = match &c.bld {
         Some(b) => ("x.ctehexml".to_string(), gb::print_ctehexml(b, &[])),
@@ -307,7 +325,37 @@ fn check_edit(h: &CaseH, c: &EditCase) -> Verdict {
     // the verdict on a broken project must not depend on what the process converted before: here the intact
     // project is converted first (a session that opens the good file, then the damaged one); a process that has
     // converted nothing must give the same outcome
-    let _ = catch(|| convert_any(&path, &text));
+    let intact = catch(|| convert_any(&path, &text));
+    // is the definition live? (an item of that kind and name made it into the intact project's model, i.e. some
+    // kept element refers to it by name)
+    let live = match &intact {
+        Ok(Ok(m0)) => match ty.as_str() {
+            "MATERIAL" => m0.cons.materials.iter().any(|x| x.name == name),
+            "LAYERS" | "CONSTRUCTION" => m0.cons.wallcons.iter().any(|x| x.name == name),
+            "GLASS-TYPE" => m0.cons.glasses.iter().any(|x| x.name == name),
+            "NAME-FRAME" => m0.cons.frames.iter().any(|x| x.name == name),
+            "GAP" => m0.cons.wincons.iter().any(|x| x.name == name),
+            // schedules and conditions are all carried over, used or not: live = some item of the model links to it
+            "DAY-SCHEDULE-PD" => m0.schedules.day.iter().filter(|x| x.name == name).any(|d| m0.schedules.week.iter().any(|w| w.values.iter().any(|(id, _)| *id == d.id))),
+            "WEEK-SCHEDULE-PD" => m0.schedules.week.iter().filter(|x| x.name == name).any(|w| m0.schedules.year.iter().any(|y| y.values.iter().any(|(id, _)| *id == w.id))),
+            "SCHEDULE-PD" => m0.schedules.year.iter().filter(|x| x.name == name).any(|y| {
+                m0.loads.iter().any(|l| [l.people_schedule, l.equipment_schedule, l.lighting_schedule].contains(&Some(y.id))) || m0.thermostats.iter().any(|t| [t.temp_max, t.temp_min].contains(&Some(y.id)))
+            }),
+            "SPACE-CONDITIONS" => m0.loads.iter().filter(|x| x.name == name).any(|l| m0.spaces.iter().any(|sp| sp.loads == Some(l.id))),
+            "SYSTEM-CONDITIONS" => m0.thermostats.iter().filter(|x| x.name == name).any(|t| m0.spaces.iter().any(|sp| sp.thermostat == Some(t.id))),
+            _ => false,
+        },
+        _ => false,
+    };
+    let in_catalogue = CATALOGUE_NAMES.with(|c| c.contains(&name));
+    // HULC repeats CONSTRUCTION blocks after every wall that uses them: only a definition that occurs once can be broken
+    let definitions = text.lines().filter(|l| {
+        let t = l.trim_start();
+        t.starts_with(&format!("\"{}\"", name)) && t[name.len() + 2..].trim_start().starts_with('=')
+    }).count();
+    if c.respell == 0 && live && !in_catalogue && definitions == 1 {
+        h.class("live-unique-definition-broken(must fail)");
+    }
     let here = catch(|| convert_any(&path, &edited));
     if let Ok(r) = &here {
         crate::engine::worker_reset("C02.convert");
@@ -336,6 +384,26 @@ fn check_edit(h: &CaseH, c: &EditCase) -> Verdict {
         }
         Ok(Ok(m)) => {
             h.class("outcome/still-converted");
+            if c.respell == 0 && live && !in_catalogue && definitions == 1 {
+                h.class(&format!("live-definition-still-converted/{}", ty));
+                return Verdict::fail(
+                    format!("C02:edit:broken-live-reference-converted:{}", ty),
+                    format!("{}: the intact project's model contains this item and links to it, the definition is the only one of that name and the catalogue has none, yet the project still converts", what),
+                );
+            }
+            if false {
+                h.sample(|| json!({"LIVE-STILL-CONVERTED": what}));
+                if std::env::var("VERIF_DEBUG").is_ok() && ty != "CONSTRUCTION" {
+                    let defs_same = edited.lines().filter(|l| l.trim_start().starts_with(&format!("\"{}\"", name)) && l.contains('=')).count();
+                    eprintln!("LIVE-STILL: {} | definitions of that name left in the edited text: {} | occurrences of the quoted name: {}", what, defs_same, edited.matches(&format!("\"{}\"", name)).count());
+                }
+                LIVE_EXAMPLES.with(|l| {
+                    let mut l = l.borrow_mut();
+                    if l.len() < 40 {
+                        l.push(what.clone());
+                    }
+                });
+            }
             let v = verdict_closed(&m, &what);
             if v.is_fail() {
                 return v;
@@ -379,7 +447,7 @@ fn check_edit(h: &CaseH, c: &EditCase) -> Verdict {
 
 pub fn run(args: &Args) -> ! {
     let ctx = Ctx::new("C02", "exploration", args);
-    ctx.rule("real: all shipped .ctehexml (parse_with_catalog) and legacy .cte (Data::new + catalogue) projects; generated: typed buildings printed to .ctehexml (half with a systems section transplanted from a shipped project); edits: each of those with ONE definition that is referenced elsewhere renamed or removed, or consistently respelt (definition and every reference) with two consecutive blanks in the name (material, layers, construction, glass, frame, gap, polygon, floor, space, wall, day/week/year schedule, space/system conditions; quick: seeded slice, thorough: every referenced definition of every real project). Oracle: closure computed by the harness (unique ids per collection, every reference resolves, no nil id, bemodel::check empty), for generated projects every link the source declares is present in the model, for edits: Err, or Ok and closed and (broken references) no reference to the edited definition silently dropped; and the outcome (error, or the model's JSON) of the edited project converted right after its intact original equals the outcome in a fresh process that has converted nothing. Non-trivial: project with windows and schedules; edit of a definition that is actually referenced.");
+    ctx.rule("real: all shipped .ctehexml (parse_with_catalog) and legacy .cte (Data::new + catalogue) projects; generated: typed buildings printed to .ctehexml (half with a systems section transplanted from a shipped project); edits: each of those with ONE definition that is referenced elsewhere renamed or removed, or consistently respelt (definition and every reference) with two consecutive blanks in the name (material, layers, construction, glass, frame, gap, polygon, floor, space, wall, day/week/year schedule, space/system conditions; quick: seeded slice, thorough: every referenced definition of every real project). Oracle: closure computed by the harness (unique ids per collection, every reference resolves, no nil id, bemodel::check empty), for generated projects every link the source declares is present in the model, for edits: Err, or Ok and closed and (broken references) no reference to the edited definition silently dropped; a renamed or removed definition that is live (the intact project's model contains the item and something in that model links to it), unique in the text and absent from the built-in catalogue must give Err; and the outcome (error, or the model's JSON) of the edited project converted right after its intact original equals the outcome in a fresh process that has converted nothing. Non-trivial: project with windows and schedules; edit of a definition that is actually referenced.");
     ctx.assume("names are unique per kind inside one project (HULC guarantees it)");
     ctx.replay_regressions(replay_one);
     let files = real_files();
@@ -417,7 +485,7 @@ pub fn run(args: &Args) -> ! {
         || (gb::bld(), any::<u32>(), any::<bool>(), prop_oneof![2 => Just(0u8), 1 => Just(1u8)]).prop_map(|(b, def, delete, respell)| EditCase { file: String::new(), bld: Some(Box::new(b)), def, delete: delete && respell == 0, respell }),
         check_edit,
     );
-    for c in ["real/converted", "edited_real/outcome/error", "edited_generated/outcome/error", "edited_generated/edit/respell/MATERIAL", "edited_real/edit/respell/MATERIAL", "generated/with-systems-section"] {
+    for c in ["real/converted", "edited_real/outcome/error", "edited_generated/outcome/error", "edited_generated/edit/respell/MATERIAL", "edited_real/edit/respell/MATERIAL", "edited_generated/live-unique-definition-broken(must fail)", "edited_real/live-unique-definition-broken(must fail)", "generated/with-systems-section"] {
         ctx.require_class(c);
     }
     ctx.finish()
